@@ -23,7 +23,7 @@ let op_of (tok : string) : op option =
       | "pkgid" -> OPkgId a.(0)
       | "shset" -> OShSet (a.(0), a.(1)) | "shget" -> OShGet a.(0)
       | "spacing" -> OSpacing (a.(0), a.(1)) | "spacing0" -> OSpacing0
-      | "use" -> OUse (a.(0), a.(1), a.(2)) | "usev" -> OUseV (a.(0), a.(1))
+      | "use" -> OUse (a.(0), a.(1), a.(2)) | "usev" | "usevn" -> OUseV (a.(0), a.(1))
       | "shuse" -> OShUse (a.(0), a.(1)) | "spacingu" -> OSpacingU (a.(0), a.(1), a.(2))
       | _ -> failwith ("unknown operation " ^ name))
 
